@@ -148,7 +148,10 @@ def run_family(prop, b, fam, profile, seed, tier):
             if rc2 == 3 and os.path.exists(out_file + ".hang"):
                 killer, how = open(out_file + ".hang").read().strip(), "does not return (no result within the per-case time limit)"
             elif rc2 != 0 and os.path.exists(trace):
-                killer, how = open(trace).read().strip(), f"kills the process (exit status {rc2}): " + (out2 or out)[-400:].strip()
+                tr = open(trace).read().strip().splitlines()
+                if not tr or tr[-1] == "#returned":
+                    fail_infra(f"harness {b} gen {fam} ({profile}) died between cases (generator fault, exit status {rc2})", out + out2)
+                killer, how = tr[0], f"kills the process (exit status {rc2}): " + (out2 or out)[-400:].strip()
             elif rc2 != 0:
                 fail_infra(f"harness {b} gen {fam} ({profile}) exited {rc} and {rc2}", out + out2)
             else:
